@@ -11,21 +11,21 @@ import (
 )
 
 var (
-	flagRepo    = flag.String("repo", "/repo", "repository root")
-	flagMirror  = flag.String("mirror", "/verif/contracts", "contract mirror")
-	flagProp    = flag.String("prop", "", "property id")
-	flagTier    = flag.String("tier", "quick", "quick|thorough")
-	flagUnit    = flag.String("unit", "", "only units whose name contains this")
-	flagOut     = flag.String("out", "/verif/.work", "work directory for SMT files")
-	flagTimeout = flag.Int("timeout", 0, "per-obligation solver timeout (s)")
-	flagDump    = flag.Bool("dumpgen", false, "print generated contract source")
-	flagV       = flag.Bool("v", false, "verbose")
-	flagJobs    = flag.Int("j", 5, "obligations in flight")
-	flagSSA     = flag.String("ssa", "", "dump SSA of function")
-	flagEvidence = flag.String("evidence", "", "evidence file to write")
-	flagKnown   = flag.String("known", "/verif/known_findings.txt", "known findings file")
+	flagRepo      = flag.String("repo", "/repo", "repository root")
+	flagMirror    = flag.String("mirror", "/verif/contracts", "contract mirror")
+	flagProp      = flag.String("prop", "", "property id")
+	flagTier      = flag.String("tier", "quick", "quick|thorough")
+	flagUnit      = flag.String("unit", "", "only units whose name contains this")
+	flagOut       = flag.String("out", "/verif/.work", "work directory for SMT files")
+	flagTimeout   = flag.Int("timeout", 0, "per-obligation solver timeout (s)")
+	flagDump      = flag.Bool("dumpgen", false, "print generated contract source")
+	flagV         = flag.Bool("v", false, "verbose")
+	flagJobs      = flag.Int("j", 5, "obligations in flight")
+	flagSSA       = flag.String("ssa", "", "dump SSA of function")
+	flagEvidence  = flag.String("evidence", "", "evidence file to write")
+	flagKnown     = flag.String("known", "/verif/known_findings.txt", "known findings file")
 	flagReplayDir = flag.String("replaydir", "/verif/replay", "replay directory")
-	flagNoReplay = flag.Bool("noreplay", false, "skip replay of counterexamples")
+	flagNoReplay  = flag.Bool("noreplay", false, "skip replay of counterexamples")
 )
 
 func main() {
@@ -107,10 +107,11 @@ func selectUnits(eng *Engine) []*Contract {
 }
 
 type job struct {
-	u  *Unit
-	ob *Oblig
+	genSplits       func(j *job)
+	u               *Unit
+	ob              *Oblig
 	z3file, cvcfile string
-	iz3, icvc []string
+	iz3, icvc       []string
 }
 
 func runCheck(eng *Engine, start time.Time) int {
@@ -198,41 +199,46 @@ func runCheck(eng *Engine, start time.Time) int {
 					j.iz3 = append(j.iz3, fz)
 					j.icvc = append(j.icvc, fc)
 				}
-				ncase := 1 << uint(len(splits))
-				if len(splits) == 0 {
-					ncase = 0
-				}
-				for cs := 0; cs < ncase; cs++ {
-					sub := map[*Term]*Term{}
-					var fix []*Term
-					for bi, sp := range splits {
-						if cs&(1<<uint(bi)) != 0 {
-							sub[sp] = TTrue
-							fix = append(fix, sp)
-						} else {
-							sub[sp] = TFalse
-							fix = append(fix, Not(sp))
+				jp := &j
+				f1c, asC, goalC, splitsC := f1, as, goal, splits
+				j.genSplits = func(j *job) {
+					ncase := 1 << uint(len(splitsC))
+					if len(splitsC) == 0 {
+						ncase = 0
+					}
+					for cs := 0; cs < ncase; cs++ {
+						sub := map[*Term]*Term{}
+						var fix []*Term
+						for bi, sp := range splitsC {
+							if cs&(1<<uint(bi)) != 0 {
+								sub[sp] = TTrue
+								fix = append(fix, sp)
+							} else {
+								sub[sp] = TFalse
+								fix = append(fix, Not(sp))
+							}
 						}
+						ras := make([]*Term, 0, len(asC)+len(fix))
+						for _, a := range asC {
+							ras = append(ras, replaceTerms(a, sub))
+						}
+						ras = append(ras, fix...)
+						rg := replaceTerms(goalC, sub)
+						cas, cgoal := prepareVCq(ras, rg)
+						if cgoal == nil {
+							cas, cgoal = ras, rg
+						}
+						i1, _ := BuildScript(cas, cgoal, nil, false)
+						i2, _ := BuildScript(cas, cgoal, nil, true)
+						fz := fmt.Sprintf("%s.inst%d.smt2", strings.TrimSuffix(f1c, ".smt2"), cs)
+						fc := fmt.Sprintf("%s.inst%d.cvc5.smt2", strings.TrimSuffix(f1c, ".smt2"), cs)
+						os.WriteFile(fz, []byte(i1), 0644)
+						os.WriteFile(fc, []byte(i2), 0644)
+						j.iz3 = append(j.iz3, fz)
+						j.icvc = append(j.icvc, fc)
 					}
-					ras := make([]*Term, 0, len(as)+len(fix))
-					for _, a := range as {
-						ras = append(ras, replaceTerms(a, sub))
-					}
-					ras = append(ras, fix...)
-					rg := replaceTerms(goal, sub)
-					cas, cgoal := prepareVCq(ras, rg)
-					if cgoal == nil {
-						cas, cgoal = ras, rg
-					}
-					i1, _ := BuildScript(cas, cgoal, nil, false)
-					i2, _ := BuildScript(cas, cgoal, nil, true)
-					fz := fmt.Sprintf("%s.inst%d.smt2", strings.TrimSuffix(f1, ".smt2"), cs)
-					fc := fmt.Sprintf("%s.inst%d.cvc5.smt2", strings.TrimSuffix(f1, ".smt2"), cs)
-					os.WriteFile(fz, []byte(i1), 0644)
-					os.WriteFile(fc, []byte(i2), 0644)
-					j.iz3 = append(j.iz3, fz)
-					j.icvc = append(j.icvc, fc)
 				}
+				_ = jp
 			}
 			jobs = append(jobs, j)
 		}
@@ -260,6 +266,10 @@ func runCheck(eng *Engine, start time.Time) int {
 					timeout = tv
 				}
 			}
+			if j.ob.Kind == "canary" && *flagTier != "thorough" && timeout > 15 {
+				// a reachability witness either comes quickly or (with quantified assumptions) not at all
+				timeout = 15
+			}
 			if len(j.iz3) > 0 {
 				// quantifier-free instantiated variant(s) first; only "unsat" (of every case) is conclusive for them
 				it := timeout / 2
@@ -272,6 +282,11 @@ func runCheck(eng *Engine, start time.Time) int {
 				r = raceFiles(j.iz3[0], j.icvc[0], it, seed, false)
 				tot += r.Time
 				if r.Status != "unsat" {
+					if j.genSplits != nil {
+						genMu.Lock()
+						j.genSplits(&j)
+						genMu.Unlock()
+					}
 					if len(j.iz3) == 1 {
 						all = false
 					}
@@ -305,6 +320,9 @@ func runCheck(eng *Engine, start time.Time) int {
 	wg.Wait()
 	return report(eng, units, start, workdir, timeout, seed)
 }
+
+// genMu serialises lazy VC generation (the term library is not thread-safe; solver processes run outside it)
+var genMu sync.Mutex
 
 func termSet(roots []*Term) map[*Term]bool {
 	seen := map[*Term]bool{}
